@@ -6,178 +6,204 @@ from ..conds import facts_at, truth
 from ..facts import keyname, AnchorLost
 from ..flow import flow, deps, deep_strip, strip, show, mentions, fold
 from .util import call_sites, exactly_once, at_most_once, foreign
-from .C02 import data_reads, action_calls, slot_lookup, _register_impls
+from .C02 import slot_lookup, registering
+from . import reg
+from .reg import DATA_T, FB_T
 
 SA_SIGINFO = 4
-FB_T = "core::option::Option<signal_hook_registry::Prev>"
-DATA_T = "signal_hook_registry::SignalData"
+HANDLER_FIELDS = ("sa_sigaction", "sa_handler")
 
 
-def chain_fn(F):
-    """the function performing the indirect call to the saved previous handler"""
-    c = []
-    for i in F.inst:
-        if i.local and i.body is not None and i.crate == "signal_hook_registry":
-            ind = [(bb, t) for bb, t in i.calls() if t.get("indirect")]
-            if ind and all(any(mentions(e, lambda x: x[0] == "field" and x[2] in ("sa_sigaction", "sa_handler")) for e in flow(i).term_operand(bb, t["fop"])) for bb, t in ind):
-                c.append(i)
-    if len(c) != 1:
-        raise AnchorLost("chaining function (indirect call through the saved sigaction): found %s" % [x.name for x in c])
-    return c[0]
+def chain_calls(F, A, lbb, fb_reads):
+    """indirect calls through a saved sigaction's handler field in the dispatcher's normal form, split by where the saved disposition
+    comes from: the looked-up slot or the fallback guard. returns (slot, fallback, other) lists of (bb, term)"""
+    fl = flow(A)
+    slot, fb, other = [], [], []
+    for bb, t in A.calls():
+        if not t.get("indirect"):
+            continue
+        fp = fl.term_operand(bb, t["fop"])
+        if not (fp and all(mentions(e, lambda x: x[0] == "field" and x[2] in HANDLER_FIELDS) for e in fp)):
+            other.append((bb, t)); continue
+        d = deps(A, fp)
+        if ("call", lbb) in d:
+            slot.append((bb, t))
+        elif any(("call", r) in d for r in fb_reads):
+            fb.append((bb, t))
+        else:
+            other.append((bb, t))
+    return slot, fb, other
+
+
+def fptr_tests(A, group_deps_pred):
+    """switch edges that imply `saved handler pointer == constant` (no real handler to chain to): {(src, dst)}"""
+    from ..conds import switch_edges
+    drop = set()
+    for (b, tgt, lab, exprs, t) in switch_edges(A):
+        for e in exprs:
+            e = deep_strip(e)
+            if e[0] != "binop" or e[1] not in ("Eq", "Ne"):
+                continue
+            x, y = deep_strip(e[2]), deep_strip(e[3])
+            for p, q in ((x, y), (y, x)):
+                if fold(q) is None or p[0] == "binop":
+                    continue
+                if not mentions(p, lambda z: z[0] == "field" and z[2] in HANDLER_FIELDS):
+                    continue
+                if not group_deps_pred(p):
+                    continue
+                val = int(lab[3:]) if lab.startswith("sw:") else None
+                is_true = (val is not None and val != 0) or (val is None and [v for v, _ in t["vals"]] == [0])
+                is_false = (val == 0)
+                if (e[1] == "Eq" and is_true) or (e[1] == "Ne" and is_false):
+                    drop.add((b, tgt))
+    return drop
 
 
 def rule_a(ctx):
     F = ctx.F
     rid = "C04.a"
     ctx.rule(rid, "on the slot-present path the chained previous handler is invoked exactly once, outside any loop, before the first action", floor=3)
-    h = handler(F); ex = chain_fn(F)
-    ctx.fn(h); ctx.fn(ex)
-    lk = slot_lookup(F, h)
+    h, A = reg.handler_n(F)
+    ctx.fn(h)
+    lk = slot_lookup(F, A)
     if len(lk) != 1:
         raise AnchorLost("slot lookup in the dispatcher")
     lbb = lk[0][0]
-    calls = [(bb, t) for bb, t in h.calls() if t.get("f") == ex.id]
-    slot_calls = [(bb, t) for bb, t in calls if ("call", lbb) in deps(h, flow(h).term_arg(bb, 0))]
-    other = [(bb, t) for bb, t in calls if (bb, t) not in slot_calls]
-    ctx.check(len(slot_calls) == 1, rid, "slot-chain-call", "one chained call for the found slot's previous handler", h.span, [t["sp"] for _, t in slot_calls])
-    if len(slot_calls) != 1:
-        return h, ex, None, other
-    cbb, ct = slot_calls[0]
-    ctx.check(not cfg.in_cycle(h, cbb), rid, "chain-not-in-loop", "the chained call is outside any loop", ct["sp"], "previous handler would run once per action")
-    _, found = action_site(F)
-    # blocks of the dispatcher through which actions are reached (the virtual call itself or the call of the helper containing it)
-    ac = [((chain[0][1] if chain else abb), at) for (A, abb, at, chain) in found]
-    dom = cfg.dominators(h)
-    okk = bool(ac) and all(cbb in dom[abb] and cbb != abb for abb, _ in ac)
-    ctx.check(okk, rid, "chain-before-actions", "the chained call dominates every action call", ct["sp"], {"actions": [t["sp"] for _, t in ac]})
-    # at most one chained call on any path
-    okk, why = at_most_once(h, [bb for bb, _ in calls])
+    L = reg.locks(F)
+    fb_reads = [bb for bb, t in reg.calls_to(A, L.readers(FB_T))]
+    slot, fb, other = chain_calls(F, A, lbb, fb_reads)
+    ctx.check(bool(slot), rid, "slot-chain-call", "the found slot's previous handler is called through its saved sigaction", h.span, [t["sp"] for _, t in slot])
+    if not slot:
+        return None
+    cyc = [t["sp"] for bb, t in slot if cfg.in_cycle(A, bb)]
+    ctx.check(not cyc, rid, "chain-not-in-loop", "the chained call is outside any loop", slot[0][1]["sp"], {"in_loop": cyc, "why": "previous handler would run once per action"})
+    ac = reg.action_calls(F, A)
+    # paths on which the saved pointer is a real handler (edges implying `fptr == 0 / SIG_DFL / SIG_IGN` removed) reach an action only
+    # through a chained call
+    drop = fptr_tests(A, lambda p: ("call", lbb) in deps(A, [p]))
+    r = cfg.reachable_without_edges(A, 0, drop, avoid={bb for bb, _ in slot})
+    missed = [t["sp"] for abb, t in ac if abb in r]
+    ctx.check(bool(ac) and not missed and bool(drop), rid, "chain-before-actions", "whenever the saved disposition is a real handler, it is called before any action", slot[0][1]["sp"],
+              {"actions_reachable_without_chained_call": missed, "no_handler_edges": len(drop)})
+    okk, why = at_most_once(A, [bb for bb, _ in slot + fb])
     ctx.check(okk, rid, "chain-at-most-once", "no path invokes the previous handler twice", h.span, why)
-    return h, ex, (cbb, ct), other
+    return h, A, lbb, fb_reads, slot, fb
 
 
-def rule_b(ctx, h, ex, slot_call, other):
+def rule_b(ctx, h, A, lbb, fb_reads, slot, fb):
     F = ctx.F
     rid = "C04.b"
-    ctx.rule(rid, "the chained call receives the dispatcher's own three arguments in order; inside, the one-argument convention is used iff "
-                  "SA_SIGINFO is clear, the three-argument one iff set; both pass the function's own parameters and are guarded by "
-                  "fptr not in {0, SIG_DFL, SIG_IGN}", floor=6)
-    for (bb, t) in ([slot_call] if slot_call else []) + other:
-        fl = flow(h)
-        okk = True
-        for n in (1, 2, 3):
-            e = [deep_strip(x) for x in fl.term_arg(bb, n)]
-            if e != [("param", n)]:
-                okk = False
-        ctx.check(okk, rid, "args@bb:%s" % ("slot" if slot_call and bb == slot_call[0] else "fallback"),
-                  "chained call passes (sig, info, context) unchanged", t["sp"], [[show(x) for x in fl.term_arg(bb, n)] for n in (1, 2, 3)])
-    ind = [(bb, t) for bb, t in ex.calls() if t.get("indirect")]
-    arities = sorted(len(t["args"]) for _, t in ind)
-    ctx.check(arities == [1, 3], rid, "two-conventions", "exactly one one-argument and one three-argument indirect call", ex.span, arities)
-    fl = flow(ex)
-    for bb, t in ind:
-        n = len(t["args"])
-        facts = facts_at(ex, bb)
-        flag = None
-        not_consts = set()
-        for (ce, inf, sb) in facts:
-            tv = truth(inf)
-            if ce[0] != "binop" or tv is None:
-                continue
-            a, b = deep_strip(ce[2]), deep_strip(ce[3])
-            op = ce[1]
-            # (sa_flags & SA_SIGINFO) ==/!= 0
-            for x, y in ((a, b), (b, a)):
-                if x[0] == "binop" and x[1] == "BitAnd" and fold(y) == 0:
-                    terms = [deep_strip(x[2]), deep_strip(x[3])]
-                    has_flags = any(mentions(q, lambda z: z[0] == "field" and z[2] == "sa_flags") for q in terms)
-                    has_const = any(fold(q) == SA_SIGINFO for q in terms)
-                    if has_flags and has_const:
-                        if op == "Eq":
-                            flag = (not tv)     # set?
-                        elif op == "Ne":
-                            flag = tv
-                if mentions(x, lambda z: z[0] == "field" and z[2] in ("sa_sigaction", "sa_handler")) and x[0] != "binop" and fold(y) is not None:
-                    if (op == "Ne" and tv) or (op == "Eq" and not tv):
-                        not_consts.add(fold(y))
-        want = (n == 3)
-        ctx.check(flag is want, rid, "convention:%d-arg" % n, "%d-argument call is control-dependent on SA_SIGINFO being %s" % (n, "set" if want else "clear"),
-                  t["sp"], {"sa_siginfo_known_to_be": flag, "facts": [(show(c), i) for c, i, _ in facts]})
-        ctx.check({0, 1} <= not_consts, rid, "guard:%d-arg" % n, "the call is guarded by fptr != 0 / SIG_DFL / SIG_IGN", t["sp"], sorted(not_consts))
-        okk = all([deep_strip(x) for x in fl.term_arg(bb, k)] == [("param", k + 2)] for k in range(n))
-        ctx.check(okk, rid, "passes-own-params:%d-arg" % n, "the indirect call passes the function's own parameters in order", t["sp"],
-                  [[show(x) for x in fl.term_arg(bb, k)] for k in range(n)])
-        fp = fl.term_operand(bb, t["fop"])
-        ctx.check(all(mentions(e, lambda z: z[0] == "field" and z[2] in ("sa_sigaction", "sa_handler")) for e in fp), rid, "fptr:%d-arg" % n,
-                  "the function pointer is the saved sigaction's handler", t["sp"], [show(e) for e in fp])
+    ctx.rule(rid, "each chained call passes the dispatcher's own arguments in order; the one-argument convention is used iff SA_SIGINFO is "
+                  "clear, the three-argument one iff set; every call is guarded by fptr not in {0, SIG_DFL, SIG_IGN}", floor=6)
+    fl = flow(A)
+    for gname, grp in (("slot", slot), ("fallback", fb)):
+        if not grp:
+            continue
+        arities = sorted(len(t["args"]) for _, t in grp)
+        ctx.check(arities == [1, 3], rid, "two-conventions:%s" % gname, "exactly one one-argument and one three-argument indirect call", h.span, arities)
+        for bb, t in grp:
+            n = len(t["args"])
+            facts = facts_at(A, bb)
+            flag = None
+            not_consts = set()
+            for (ce, inf, sb) in facts:
+                tv = truth(inf)
+                if ce[0] != "binop" or tv is None:
+                    continue
+                a, b = deep_strip(ce[2]), deep_strip(ce[3])
+                op = ce[1]
+                for x, y in ((a, b), (b, a)):
+                    if x[0] == "binop" and x[1] == "BitAnd" and fold(y) == 0:
+                        terms = [deep_strip(x[2]), deep_strip(x[3])]
+                        has_flags = any(mentions(q, lambda z: z[0] == "field" and z[2] == "sa_flags") for q in terms)
+                        has_const = any(fold(q) == SA_SIGINFO for q in terms)
+                        if has_flags and has_const:
+                            if op == "Eq":
+                                flag = (not tv)
+                            elif op == "Ne":
+                                flag = tv
+                    if mentions(x, lambda z: z[0] == "field" and z[2] in HANDLER_FIELDS) and x[0] != "binop" and fold(y) is not None:
+                        if (op == "Ne" and tv) or (op == "Eq" and not tv):
+                            not_consts.add(fold(y))
+            want = (n == 3)
+            ctx.check(flag is want, rid, "convention:%s:%d-arg" % (gname, n), "%d-argument call is control-dependent on SA_SIGINFO being %s" % (n, "set" if want else "clear"),
+                      t["sp"], {"sa_siginfo_known_to_be": flag, "facts": [(show(c), i) for c, i, _ in facts][:12]})
+            ctx.check({0, 1} <= not_consts, rid, "guard:%s:%d-arg" % (gname, n), "the call is guarded by fptr != 0 / SIG_DFL / SIG_IGN", t["sp"], sorted(not_consts))
+            okk = all([deep_strip(x) for x in fl.term_arg(bb, k)] == [("param", k + 1)] for k in range(n))
+            ctx.check(okk, rid, "args:%s:%d-arg" % (gname, n), "the chained call passes the dispatcher's own (sig, info, context) unchanged and in order", t["sp"],
+                      [[show(x) for x in fl.term_arg(bb, k)] for k in range(n)])
 
 
-def installers(F):
-    h = handler(F)
-    return [i for i in F.inst if i.body is not None and any(k == "reify" and t == h.id for (t, k, b) in F.edges(i))]
+def install_calls(F, n):
+    """libc::sigaction calls in a normal form whose new-action argument is not null: [(bb, term)]"""
+    fl = flow(n)
+    out = []; queries = []
+    for bb, t, c in call_sites(F, n, foreign("sigaction")):
+        newp = [deep_strip(e) for e in fl.term_arg(bb, 1)]
+        if newp and all((e[0] == "call" and (e[3] or "").startswith("core::ptr::null")) or fold(e) == 0 for e in newp):
+            queries.append((bb, t))
+        else:
+            out.append((bb, t))
+    return out, queries
+
+
+def storage_atoms(n, exprs):
+    """the storage whose address is passed: identified by the call that created it (mem::zeroed / MaybeUninit::zeroed / uninit)"""
+    return {x for x in deps(n, exprs) if x[0] == "call" and re.search(r"(mem::zeroed|MaybeUninit::<T>::(zeroed|uninit))$", n.term(x[1]).get("def") or "")}
 
 
 def rule_c(ctx):
     F = ctx.F
     rid = "C04.c"
     ctx.rule(rid, "race window: on first registration the previous disposition (queried for the same signal) is stored into the fallback lock — "
-                  "barrier included — before the call that installs our handler, which precedes the publish of the snapshot", floor=3)
-    ins = installers(F)
-    if not ins:
-        raise AnchorLost("installing function")
-    for r in _register_impls(F):
-        ctx.fn(r)
-        inst_calls = [(bb, t) for bb, t in r.calls() if t.get("f") in [i.id for i in ins]]
-        from .pub import publish_sites
-        fb_sites = publish_sites(F, r, FB_T)
-        fb_store = [(bb, t) for bb, t, gi, vi in fb_sites]
-        fb_val = {bb: vi for bb, t, gi, vi in fb_sites}
-        data_store = [(bb, t) for bb, t, gi, vi in publish_sites(F, r, DATA_T)]
+                  "barrier included — before the sigaction call that installs our handler, which precedes the publish of the snapshot", floor=3)
+    L = reg.locks(F)
+    for fn, r0, r in registering(F):
+        ctx.fn(r0)
+        inst_calls, queries = install_calls(F, r)
+        fb_store = reg.calls_to(r, L.stores(FB_T))
+        data_store = reg.calls_to(r, L.stores(DATA_T))
         if not inst_calls or not data_store:
             raise AnchorLost("registration: installing call / publish call")
         dom = cfg.dominators(r)
+        fl = flow(r)
         for ibb, it in inst_calls:
             okk = any(fbb in dom[ibb] and fbb != ibb for fbb, _ in fb_store)
-            ctx.check(okk, rid, "fallback-before-install@%s" % keyname(r.name), "the fallback store (with its grace period) dominates the installing call", it["sp"],
+            ctx.check(okk, rid, "fallback-before-install@%s" % keyname(r0.name), "the fallback store (with its grace period) dominates the installing call", it["sp"],
                       {"fallback_stores": [t["sp"] for _, t in fb_store]})
             before = [t["sp"] for dbb, t in data_store if ibb in cfg.reachable_after(r, dbb, unwind=False)]
-            ctx.check(not before, rid, "install-before-publish@%s" % keyname(r.name), "no publish of the snapshot can precede the installing call", it["sp"], before)
+            ctx.check(not before, rid, "install-before-publish@%s" % keyname(r0.name), "no publish of the snapshot can precede the installing call", it["sp"], before)
             late = [t["sp"] for fbb2, t in fb_store if fbb2 in cfg.reachable_after(r, ibb, unwind=False)]
-            ctx.check(not late, rid, "fallback-kept-until-publish@%s" % keyname(r.name), "the fallback is not overwritten between the installing call and the publish "
+            ctx.check(not late, rid, "fallback-kept-until-publish@%s" % keyname(r0.name), "the fallback is not overwritten between the installing call and the publish "
                       "(a delivery in that window still finds it)", it["sp"], late)
-            sig = [deep_strip(e) for e in flow(r).term_arg(ibb, 0)]
+            sig = [deep_strip(e) for e in fl.term_arg(ibb, 0)]
             for fbb, ft in fb_store:
-                vd = deps(r, flow(r).term_arg(fbb, fb_val.get(fbb, 1)))
-                det = [x for x in vd if x[0] == "call" and (r.term(x[1]).get("def") or "").endswith("Prev::detect")]
-                same = False
-                for x in det:
-                    a = [deep_strip(e) for e in flow(r).term_arg(x[1], 0)]
-                    same = (a == sig)
-                ctx.check(bool(det) and same, rid, "fallback-value@%s" % keyname(r.name), "the stored fallback is the disposition queried for the same signal number",
-                          ft["sp"], {"derives_from_detect": bool(det), "same_signal": same})
+                va = storage_atoms(r, fl.term_arg(fbb, 1))
+                det = [(qbb, qt) for qbb, qt in queries if storage_atoms(r, fl.term_arg(qbb, 2)) & va and fbb in cfg.reachable_after(r, qbb, unwind=False)]
+                same = bool(det) and all([deep_strip(e) for e in fl.term_arg(qbb, 0)] == sig for qbb, _ in det)
+                ctx.check(bool(det) and same, rid, "fallback-value@%s" % keyname(r0.name), "the stored fallback is the disposition queried for the same signal number",
+                          ft["sp"], {"derives_from_query": bool(det), "same_signal": same})
 
 
-def rule_d(ctx, h, ex, other):
+def rule_d(ctx, h, A, lbb, fb_reads, slot, fb):
     F = ctx.F
     rid = "C04.d"
     ctx.rule(rid, "the dispatcher takes the fallback guard before the data guard; the fallback chain is entered only when the slot lookup failed "
                   "and is control-dependent on prev.signal == sig", floor=3)
-    fb = [(bb, t) for bb, t in h.calls() if t.get("f") is not None and F.inst[t["f"]].name == "signal_hook_registry::half_lock::HalfLock::<%s>::read" % FB_T]
-    rd = data_reads(F, h)
-    dom = cfg.dominators(h)
-    okk = len(fb) == 1 and len(rd) == 1 and fb[0][0] in dom[rd[0][0]] and fb[0][0] != rd[0][0]
+    L = reg.locks(F)
+    rd = [bb for bb, t in reg.calls_to(A, L.readers(DATA_T))]
+    dom = cfg.dominators(A)
+    okk = len(fb_reads) == 1 and len(rd) == 1 and fb_reads[0] in dom[rd[0]] and fb_reads[0] != rd[0]
     ctx.check(okk, rid, "fallback-guard-first", "the fallback guard is taken before the data guard", h.span,
               "reverse order loses the chain when another signal's registration overwrites the fallback in between (oracle/order_arguments.md)")
-    lk = slot_lookup(F, h)
-    lbb = lk[0][0]
-    if not other:
+    if not fb:
         raise AnchorLost("fallback chain call in the dispatcher")
-    for bb, t in other:
-        facts = facts_at(h, bb)
+    for bb, t in fb:
+        facts = facts_at(A, bb)
         miss = eqsig = False
         for (ce, inf, sb) in facts:
             if ce[0] == "discr" and mentions(ce, lambda x: x[0] == "call" and x[1] == lbb):
-                # lookup result is not Some
                 if inf == ("eq", 0) or (inf[0] == "ne" and 1 in inf[1]):
                     miss = True
             if ce[0] == "binop" and ce[1] in ("Eq", "Ne"):
@@ -187,10 +213,9 @@ def rule_d(ctx, h, ex, other):
                     tv = truth(inf)
                     if (ce[1] == "Eq" and tv) or (ce[1] == "Ne" and tv is False):
                         eqsig = True
-        ctx.check(miss, rid, "fallback-only-on-miss", "the fallback chain is reached only when no slot exists for the signal", t["sp"], [(show(c), i) for c, i, _ in facts])
-        ctx.check(eqsig, rid, "fallback-signal-match", "the fallback chain is control-dependent on prev.signal == sig", t["sp"], [(show(c), i) for c, i, _ in facts])
-        pd = deps(h, flow(h).term_arg(bb, 0))
-        ctx.check(fb and ("call", fb[0][0]) in pd, rid, "fallback-from-guard", "the chained fallback is the one read through the fallback guard", t["sp"], sorted(map(str, pd))[:8])
+        n = len(t["args"])
+        ctx.check(miss, rid, "fallback-only-on-miss:%d-arg" % n, "the fallback chain is reached only when no slot exists for the signal", t["sp"], [(show(c), i) for c, i, _ in facts][:12])
+        ctx.check(eqsig, rid, "fallback-signal-match:%d-arg" % n, "the fallback chain is control-dependent on prev.signal == sig", t["sp"], [(show(c), i) for c, i, _ in facts][:12])
 
 
 def rule_e(ctx):
@@ -200,50 +225,39 @@ def rule_e(ctx):
     rid = "C04.e"
     ctx.rule(rid, "the previous disposition stored in the slot is the `oldact` written by the installing sigaction call itself (non-null out "
                   "parameter), so no foreign handler installed in between is lost", floor=2)
-    from ..flow import partial_fields
-    for ins in installers(F):
-        ctx.fn(ins)
-        fl = flow(ins)
-        calls = [(bb, t) for bb, t, c in call_sites(F, ins, foreign("sigaction"))]
-        inst_calls = []
-        for bb, t in calls:
-            newp = [deep_strip(e) for e in fl.term_arg(bb, 1)]
-            if all(e[0] == "call" and (e[3] or "").startswith("core::ptr::null") for e in newp):
-                continue
-            inst_calls.append((bb, t))
+    for fn, r0, n in registering(F):
+        ctx.fn(r0)
+        fl = flow(n)
+        inst_calls, queries = install_calls(F, n)
         if len(inst_calls) != 1:
-            raise AnchorLost("installing sigaction call in %s" % ins.name)
+            raise AnchorLost("installing sigaction call in %s (%d found)" % (r0.name, len(inst_calls)))
         bb, t = inst_calls[0]
         old = [deep_strip(e) for e in fl.term_arg(bb, 2)]
         isnull = all((e[0] == "call" and (e[3] or "").startswith("core::ptr::null")) or fold(e) == 0 for e in old)
-        # the storage whose address is passed: identified by the call that created it (mem::zeroed / MaybeUninit::zeroed / uninit)
-        def storage_atoms(exprs):
-            return {x for x in deps(ins, exprs) if x[0] == "call" and re.search(r"(mem::zeroed|MaybeUninit::<T>::(zeroed|uninit))$", ins.term(x[1]).get("def") or "")}
-        oa = storage_atoms(fl.term_arg(bb, 2))
-        ctx.check(not isnull and bool(oa), rid, "install-returns-old@%s" % keyname(ins.name), "the installing sigaction call receives a non-null `oldact` out parameter", t["sp"],
+        oa = storage_atoms(n, fl.term_arg(bb, 2))
+        ctx.check(not isnull and bool(oa), rid, "install-returns-old@%s" % keyname(r0.name), "the installing sigaction call receives a non-null `oldact` out parameter", t["sp"],
                   [show(e) for e in old])
         if not oa:
             continue
         okk = False; found = []
-        for abb, bl in enumerate(ins.blocks):
+        for abb, bl in enumerate(n.blocks):
             for si, st in enumerate(bl["s"]):
-                if st["k"] == "assign" and st["r"]["k"] == "aggregate" and st["r"].get("def") == "signal_hook_registry::Prev":
-                    fi = st["r"]["fields"].index("info")
-                    pa = storage_atoms(fl.operand(st["r"]["ops"][fi], (abb, si)))
+                if st["k"] == "assign" and st["r"]["k"] == "aggregate" and st["r"].get("def") == "signal_hook_registry::Slot":
+                    fi = st["r"]["fields"].index("prev")
+                    pa = storage_atoms(n, fl.operand(st["r"]["ops"][fi], (abb, si)))
                     found.append(sorted(pa))
-                    if pa & oa and abb in cfg.reachable_after(ins, bb, unwind=False):
+                    if pa & oa and abb in cfg.reachable_after(n, bb, unwind=False):
                         okk = True
-        ctx.check(okk, rid, "slot-prev-is-exchanged@%s" % keyname(ins.name), "Slot.prev.info is the structure the installing call filled in", ins.span,
-                  {"prev_info_storage": found, "oldact_storage": sorted(oa), "why": "a handler installed by another thread between a separate query and the install would never be chained"})
+        ctx.check(okk, rid, "slot-prev-is-exchanged@%s" % keyname(r0.name), "Slot.prev.info is the structure the installing call filled in", r0.span,
+                  {"slot_prev_storage": found, "oldact_storage": sorted(oa), "why": "a handler installed by another thread between a separate query and the install would never be chained"})
 
 
 def run(ctx):
     ctx.guarded("C04.e", rule_e)
     r = ctx.guarded("C04.a", rule_a)
     if r:
-        h, ex, slot_call, other = r
-        ctx.guarded("C04.b", rule_b, h, ex, slot_call, other)
-        ctx.guarded("C04.d", rule_d, h, ex, other)
+        ctx.guarded("C04.b", rule_b, *r)
+        ctx.guarded("C04.d", rule_d, *r)
     ctx.guarded("C04.c", rule_c)
     ctx.note("not decided: atomicity with respect to foreign sigaction callers (documented race); what the foreign handler does")
     ctx.assume("the order arguments of oracle/order_arguments.md (why each 'A before B' is a necessary condition)")
